@@ -643,8 +643,8 @@ class Fxp():
 
         """
 
-        x = self.copy()
-        x.val = x.val.flatten(order)
+        x = Fxp(like=self)          # (an object of its own: a shallow copy would share the status record and the configuration)
+        x.val = self.val.flatten(order)
         return x
 
     # methods about value
@@ -1937,8 +1937,8 @@ class Fxp():
 
     @property
     def T(self):
-        x = self.copy()
-        x.val = x.val.T
+        x = Fxp(like=self)          # a view of the values (like indexing) carried by an object of its own
+        x.val = self.val.T
         return x    
     
     def transpose(self, axes=None, **kwargs):
